@@ -721,7 +721,7 @@ func scenario(c *run.Ctx, idx int) {
 func runAll(c *run.Ctx) {
 	fx.Quiet()
 	scn.SetParams()
-	n := c.Pick(16, 480)
+	n := c.Pick(16, 288)
 	lo, hi := c.Share(n)
 	for i := lo; i < hi; i++ {
 		scenario(c, i)
